@@ -445,6 +445,24 @@ def grid(prop, quick, seed=0):
     for P in range(6):
         for sd in range(120 if quick else 1500):
             jobs.append('P=%d seed=%d min=150 max=400' % (P, sd))
+    # the opt-in vocabulary (EXT*, NEXT_BUFFER, READONLY_BUFFER) takes part in the stack and memo discipline like any other
+    # opcode; their arms are rarely taken, so they get their own medium-sized runs
+    if prop in ('C01', 'C02', 'C03', 'C17', 'C04', 'C09'):
+        for sd in range(400 if quick else 3000):
+            jobs.append('P=5 seed=%d buffer=1 min=60 max=300' % sd)
+        for P in range(2, 6):
+            for sd in range(60 if quick else 600):
+                jobs.append('P=%d seed=%d ext=1 min=60 max=300' % (P, sd))
+    # the remaining public configuration knob, with_buffer_size(n): whatever it is used for, every property holds for every
+    # n (a size smaller than the pickle, 0, sizes no allocator can satisfy)
+    for P in range(6):
+        for sd in range(4 if quick else 30):
+            for n in (32, 0, 4096):
+                jobs.append('P=%d seed=%d bufsize=%d min=60 max=300' % (P, sd, n))
+        jobs.append('P=%d hex=0102030405060708 bufsize=16 min=60 max=300' % P)
+        if prop == 'C09':
+            jobs.append('P=%d seed=1 bufsize=18446744073709551615 min=2 max=6' % P)
+            jobs.append('P=%d hex=01 bufsize=9223372036854775808 min=2 max=6' % P)
     # generator reuse is a dimension of every byte-level property: the LAST output of a short call history is checked
     for P in range(6):
         for sd in range(6 if quick else 40):
@@ -589,7 +607,7 @@ def find(prop, quick=True, seed=0, limit=None):
     jobs = [j if 'min=' in j else j + ' min=60 max=300' for j in grid(prop, quick, seed)]
     if limit and len(jobs) > limit:
         # the few hand-placed corner jobs (very long pickles, inverted ranges, long-then-again) are always kept
-        special = [j for j in jobs if any(t in j for t in ('min=4000 ', 'min=8000 ', 'min=100 max=0', 'calls=seed;seed'))][:90]
+        special = [j for j in jobs if any(t in j for t in ('min=4000 ', 'min=8000 ', 'min=100 max=0', 'calls=seed;seed', 'bufsize='))][:150]
         rest = [j for j in jobs if j not in set(special)]
         random.Random(seed).shuffle(rest)
         jobs = special + rest[:max(0, limit - len(special))]
